@@ -340,7 +340,9 @@ pub fn rand_file(rng: &mut Rng, used: &mut Vec<String>, max_len: usize) -> FileC
 
 pub fn rand_cfg(rng: &mut Rng, max_files: u64, max_len: usize) -> Cfg {
     let mut cfg = Cfg {
-        name: rng.pick(&["pkg", "a-b", "lib.x", "n1"]).to_string(),
+        // (now and then a name longer than the lead's 65-byte name field, also with a multi-byte character at the cut)
+        name: if rng.chance(1, 12) { match rng.below(5) { 0 => "n".repeat(64), 1 => "n".repeat(65), 2 => "n".repeat(66), 3 => "long-name.".repeat(9), _ => format!("{}x", "é".repeat(33)) } }
+              else { rng.pick(&["pkg", "a-b", "lib.x", "n1"]).to_string() },
         version: rng.pick(&["1.0", "0", "2.3.4~rc1", "1^git"]).to_string(),
         license: rng.pick(&["MIT", "Apache-2.0 OR MIT", ""]).to_string(),
         arch: rng.pick(&["x86_64", "noarch", "aarch64"]).to_string(),
